@@ -543,6 +543,35 @@ func testAndSetOneRegion(fd *ast.FuncDecl, lock, recv, field string, heldAtEntry
 	return ok
 }
 
+// holdsLockThroughout: the body starts with `lock.Lock()`, defers `lock.Unlock()` right after, and never touches
+// the lock again (no window in which another callback could run)
+func holdsLockThroughout(fd *ast.FuncDecl, lock string) bool {
+	if fd == nil || fd.Body == nil || len(fd.Body.List) < 2 {
+		return false
+	}
+	es, ok := fd.Body.List[0].(*ast.ExprStmt)
+	if !ok || exprString(es.X) != lock+".Lock()" {
+		return false
+	}
+	ds, ok := fd.Body.List[1].(*ast.DeferStmt)
+	if !ok || exprString(ds.Call) != lock+".Unlock()" {
+		return false
+	}
+	n := 0
+	ast.Inspect(fd.Body, func(x ast.Node) bool {
+		if call, isCall := x.(*ast.CallExpr); isCall {
+			if se, isSel := call.Fun.(*ast.SelectorExpr); isSel && exprString(se.X) == lock {
+				switch se.Sel.Name {
+				case "Lock", "Unlock", "RLock", "RUnlock":
+					n++
+				}
+			}
+		}
+		return true
+	})
+	return n == 2
+}
+
 func extractLocks(repo string, o *out) {
 	files := []string{"grpcgcp/gcp_balancer.go", "grpcgcp/gcp_picker.go", "grpcgcp/gcp_multiendpoint.go",
 		"grpcgcp/gcp_interceptor.go", "grpcgcp/multiendpoint/multiendpoint.go"}
@@ -933,6 +962,16 @@ func extractLocks(repo string, o *out) {
 			ok = readsInCallback == 0 && bindsRef >= 1 && lockFirst
 		}
 		o.lines = append(o.lines, fmt.Sprintf("def bindReadsSubConnUnderLock : Bool := %v", ok))
+	}
+	// the balancer callbacks and refresh are single atomic steps of the pool model: each holds gb.mu from its first
+	// statement to its return (C04, C07, C20)
+	{
+		bf := parse(filepath.Join(repo, "grpcgcp/gcp_balancer.go"))
+		ok := true
+		for _, fn := range []string{"UpdateClientConnState", "UpdateSubConnState", "refresh"} {
+			ok = ok && holdsLockThroughout(funcDeclRecv(bf, fn), "gb.mu")
+		}
+		o.lines = append(o.lines, fmt.Sprintf("def balancerCallbacksHoldLock : Bool := %v", ok))
 	}
 	// round-robin cursor (C09): rrRefId is advanced only by `atomic.AddUint32(&….rrRefId, 1)`
 	{
